@@ -62,7 +62,7 @@ def main():
             "add_only": True,
         },
         "engines": [
-            {"name": "tlc-trace", "path": "/verif/spec", "serves_properties": sorted(CHECKS), "kind_free_text": "TLA+ specification (AidlStore, AidlProject, AidlValidate, ...), bounded models MC_*.tla checked by TLC, trace specification TraceAidl.tla validating NDJSON traces recorded by /verif/harness from the real library"},
+            {"name": "tlc-trace", "path": "/verif/spec", "serves_properties": sorted(CHECKS), "kind_free_text": "TLA+ specification (AidlStore, AidlProject, AidlValidate, ...), bounded models MC_*.tla checked by TLC, trace specification TraceAidl.tla validating NDJSON traces recorded by /verif/harness from the real library; AidlProofs.tla (TLAPS, unbounded store-level theorems) is re-checked with tlapm by the thorough tier of C01, C12, C13"},
         ],
         "checks": checks,
         "notes": "All checks: exit 0 = held (KNOWN-FINDING lines for recorded defects), 1 = VIOLATION line + replay file, 2 = tool error. VERIF_SEED seeds every random driver.",
